@@ -466,8 +466,8 @@ Proof.
   assert (Hl2 : length (skipn 28 e) = 4%nat) by (rewrite skipn_length; lia).
   assert (Hl3 : length (skipn 28 hb) = 4%nat) by (rewrite skipn_length; lia).
   assert (Hlen : length (firstn 28 e ++ skipn 28 e) = 32%nat) by (rewrite <- Hsplit; exact Hle).
-  rewrite rr_xor_bytes_skipn by congruence. rewrite rr_xor_bytes_firstn.
-  rewrite firstn_all2 by (rewrite xor_bytes_length; lia).
+  rewrite rr_xor_bytes_skipn by congruence. rewrite !rr_xor_bytes_firstn.
+  rewrite (firstn_all2 (n := 4) (skipn 28 hb)) by lia. rewrite (firstn_all2 (n := 4) (skipn 28 e)) by lia.
   apply rr_crc_detect.
   - now apply bytes_ok_firstn.
   - now apply bytes_ok_skipn.
@@ -504,4 +504,755 @@ Proof.
   intros hb e Hl Hle Hb Hbe Hok Hnz Hcls. unfold fm_fh_crc_ok, fm_u32_at, fm_dec_u32 in *.
   change (N.to_nat OFFSETOF_file_header_crc32) with 28%nat in *.
   apply N.eqb_eq in Hok. now apply rr_hdr32_detect.
+Qed.
+
+(* ================================================================ closed forms of the return codes *)
+Lemma rr_rd_header_rc : forall s, rp_flen s = rp_len (rp_file s) -> rp_r_valid (rp_r s) = false ->
+  snd (rp_raw_rd_header s) =
+  if rp_fend (rp_r s) <=? rp_fpos (rp_r s) then JLS_ERROR_EMPTY
+  else let hb := fm_sub (rp_offset (rp_r s)) 32 (rp_file s) in
+       if negb (fm_ch_complete hb) then JLS_ERROR_EMPTY
+       else if negb (fm_ch_crc_ok hb) then JLS_ERROR_MESSAGE_INTEGRITY else 0.
+Proof.
+  intros s Hlen Hv. unfold rp_raw_rd_header. rewrite Hv.
+  destruct (rp_fend (rp_r s) <=? rp_fpos (rp_r s)); [reflexivity|].
+  set (s1 := if rp_offset (rp_r s) =? rp_fpos (rp_r s) then s else rp_io_set_r s (rp_r_set_fpos (rp_r s) (rp_offset (rp_r s)))).
+  assert (H1 : rp_fpos (rp_r s1) = rp_offset (rp_r s) /\ rp_file s1 = rp_file s /\ rp_flen s1 = rp_flen s).
+  { subst s1. destruct (rp_offset (rp_r s) =? rp_fpos (rp_r s)) eqn:E.
+    - apply N.eqb_eq in E. auto.
+    - repeat split; reflexivity. }
+  destruct H1 as (Hp & Hf & Hl).
+  set (s2 := rp_io_set_r s1 (rp_r_set_offset (rp_r s1) (rp_fpos (rp_r s1)))).
+  rewrite (rr_bk_fread_eq s2 SIZEOF_chunk_header) by (subst s2; cbn; congruence).
+  assert (Hp2 : rp_fpos (rp_r s2) = rp_offset (rp_r s)) by (subst s2; cbn; exact Hp).
+  assert (Hf2 : rp_file s2 = rp_file s) by (subst s2; cbn; exact Hf).
+  rewrite Hp2, Hf2. change SIZEOF_chunk_header with 32. cbv zeta.
+  destruct (negb (fm_ch_complete (fm_sub (rp_offset (rp_r s)) 32 (rp_file s)))); [reflexivity|].
+  destruct (negb (fm_ch_crc_ok (fm_sub (rp_offset (rp_r s)) 32 (rp_file s)))); reflexivity.
+Qed.
+
+Lemma rr_rd_payload_closed : forall s max, rp_flen s = rp_len (rp_file s) -> rp_r_valid (rp_r s) = true ->
+  let pl := fm_payload_length (rp_hdr (rp_r s)) in
+  let dl := fm_disk_len pl in
+  pl <> 0 ->
+  snd (rp_raw_rd_payload s max) =
+    (if max <? dl then JLS_ERROR_TOO_BIG
+     else let region := fm_sub (rp_offset (rp_r s) + 32) dl (rp_file s) in
+          if rp_len region <? dl then JLS_ERROR_IO
+          else if negb (crc32c (firstn (N.to_nat pl) region) =? fm_dec (firstn 4 (skipn (N.to_nat (dl - 4)) region)))
+               then JLS_ERROR_MESSAGE_INTEGRITY else 0) /\
+  rp_buf (fst (rp_raw_rd_payload s max)) =
+    (if max <? dl then rp_buf s
+     else let region := fm_sub (rp_offset (rp_r s) + 32) dl (rp_file s) in region ++ skipn (length region) (rp_buf s)).
+Proof.
+  intros s max Hlen Hv pl dl Hpl. unfold rp_raw_rd_payload. rewrite Hv. cbn [N.eqb negb].
+  fold pl. destruct (pl =? 0) eqn:E0; [apply N.eqb_eq in E0; congruence|]. fold dl.
+  destruct (max <? dl); [split; reflexivity|].
+  set (pos := rp_offset (rp_r s) + SIZEOF_chunk_header).
+  set (s2 := if pos =? rp_fpos (rp_r s) then s else rp_io_set_r s (rp_r_set_fpos (rp_r s) pos)).
+  assert (H2 : rp_fpos (rp_r s2) = pos /\ rp_file s2 = rp_file s /\ rp_flen s2 = rp_flen s /\ rp_buf s2 = rp_buf s).
+  { subst s2. destruct (pos =? rp_fpos (rp_r s)) eqn:E.
+    - apply N.eqb_eq in E. auto.
+    - repeat split; reflexivity. }
+  destruct H2 as (Hp2 & Hf2 & Hl2 & Hb2).
+  rewrite (rr_bk_fread_eq s2 dl) by congruence. rewrite Hp2, Hf2. subst pos. change SIZEOF_chunk_header with 32.
+  cbv zeta. set (region := fm_sub (rp_offset (rp_r s) + 32) dl (rp_file s)).
+  cbn [rp_io_set_buf rp_io_set_r rp_buf rp_buf_len rp_r].
+  assert (Hput : rp_buf_put (rp_buf s2) region = region ++ skipn (length region) (rp_buf s)).
+  { unfold rp_buf_put. rewrite rr_skip_eq, Hb2. unfold rp_len. now rewrite Nat2N.id. }
+  rewrite rr_take_eq, rr_skip_eq. unfold fm_dec_u32.
+  destruct (rp_len region <? dl); [split; [reflexivity | cbn; exact Hput]|].
+  destruct (negb (crc32c (firstn (N.to_nat pl) region) =? fm_dec (firstn 4 (skipn (N.to_nat (dl - 4)) region))));
+    (split; [reflexivity | cbn; exact Hput]).
+Qed.
+
+Lemma rr_sub_app3 : forall (a : N) (pre new post : list N), length pre = N.to_nat a ->
+  fm_sub a (N.of_nat (length new)) (pre ++ new ++ post) = new.
+Proof.
+  intros a pre new post H. unfold fm_sub. rewrite skipn_app, skipn_all2 by lia.
+  replace (N.to_nat a - length pre)%nat with 0%nat by lia. cbn [app skipn].
+  rewrite Nat2N.id. now apply firstn_app_exact.
+Qed.
+
+(* ================================================================ a corrupted region is never accepted *)
+(* chunk header *)
+Theorem rr_header_corruption_detected : forall (s t : rp_io) (e : list N),
+  rp_flen s = rp_len (rp_file s) -> rp_flen t = rp_len (rp_file t) ->
+  rp_r t = rp_r s -> rp_r_valid (rp_r s) = false ->
+  bytes_ok (rp_file s) -> bytes_ok e -> length e = 32%nat ->
+  rp_file t = firstn (N.to_nat (rp_offset (rp_r s))) (rp_file s)
+              ++ xor_bytes (firstn 32 (skipn (N.to_nat (rp_offset (rp_r s))) (rp_file s))) e
+              ++ skipn (N.to_nat (rp_offset (rp_r s)) + 32) (rp_file s) ->
+  le e <> 0 ->
+  ((weight (le e) <= 3)%nat \/
+   (exists (v : N) (k : nat), 0 < v /\ v < 2 ^ 32 /\ (k <= 256)%nat /\ le e = N.shiftl v (N.of_nat k))) ->
+  snd (rp_raw_rd_header s) = 0 ->
+  snd (rp_raw_rd_header t) = JLS_ERROR_MESSAGE_INTEGRITY.
+Proof.
+  intros s t e Hls Hlt Hr Hv Hbf Hbe Hle Hft Hnz Hcls Hok.
+  rewrite rr_rd_header_rc in Hok by assumption.
+  rewrite rr_rd_header_rc by (try rewrite Hr; assumption). rewrite Hr.
+  destruct (rp_fend (rp_r s) <=? rp_fpos (rp_r s)); [discriminate|]. cbv zeta in *.
+  set (off := rp_offset (rp_r s)) in *. set (hb := fm_sub off 32 (rp_file s)) in *.
+  destruct (fm_ch_complete hb) eqn:Ec; [|discriminate]. cbn [negb] in Hok.
+  destruct (fm_ch_crc_ok hb) eqn:Ek; [|discriminate]. clear Hok.
+  assert (Hl32 : length hb = 32%nat) by (apply rr_ch_complete_sub; exact Ec).
+  assert (Hfull : off + 32 <= N.of_nat (length (rp_file s))) by (apply rr_sub_full; [exact Hl32|lia]).
+  assert (Hhb' : fm_sub off 32 (rp_file t) = xor_bytes hb e).
+  { assert (Hhb : firstn 32 (skipn (N.to_nat off) (rp_file s)) = hb) by reflexivity.
+    rewrite Hft, Hhb.
+    assert (Hxl : length (xor_bytes hb e) = 32%nat) by (rewrite xor_bytes_length; congruence).
+    replace (fm_sub off 32) with (fm_sub off (N.of_nat (length (xor_bytes hb e)))) by (rewrite Hxl; reflexivity).
+    apply rr_sub_app3. rewrite firstn_length. lia. }
+  rewrite Hhb'.
+  assert (Hc' : fm_ch_complete (xor_bytes hb e) = true).
+  { unfold fm_ch_complete. apply fm_has_true. rewrite xor_bytes_length by congruence. rewrite Hl32. reflexivity. }
+  rewrite Hc'. cbn [negb].
+  rewrite (rr_ch_crc_detect hb e Hl32 Hle (rr_bytes_ok_sub _ _ _ Hbf) Hbe Ek Hnz Hcls). reflexivity.
+Qed.
+
+Lemma rr_sub_app5 : forall (a : N) (pre b c d post : list N), length pre = N.to_nat a ->
+  fm_sub a (N.of_nat (length b + length c + length d)) (pre ++ b ++ c ++ d ++ post) = b ++ c ++ d.
+Proof.
+  intros a pre b c d post H.
+  replace (pre ++ b ++ c ++ d ++ post) with (pre ++ (b ++ c ++ d) ++ post) by (now rewrite <- !app_assoc).
+  replace (length b + length c + length d)%nat with (length (b ++ c ++ d)) by (rewrite !app_length; lia).
+  now apply rr_sub_app3.
+Qed.
+
+(* the parts of an intact payload region *)
+Lemma rr_region_parts : forall f p pl dl, pl + 4 <= dl -> p + dl <= N.of_nat (length f) ->
+  let region := fm_sub p dl f in
+  firstn (N.to_nat pl) region = fm_sub p pl f /\
+  firstn 4 (skipn (N.to_nat (dl - 4)) region) = fm_sub (p + dl - 4) 4 f /\
+  length (fm_sub p pl f) = N.to_nat pl /\ length (fm_sub (p + dl - 4) 4 f) = 4%nat.
+Proof.
+  intros f p pl dl H1 H2 region. subst region. split; [|split; [|split]].
+  - unfold fm_sub. apply rr_firstn_firstn_skipn. lia.
+  - rewrite rr_skipn_sub by lia. replace (dl - (dl - 4)) with 4 by lia.
+    replace (p + (dl - 4)) with (p + dl - 4) by lia. unfold fm_sub. rewrite firstn_firstn. reflexivity.
+  - apply rr_sub_length. lia.
+  - change 4%nat with (N.to_nat 4). apply rr_sub_length. lia.
+Qed.
+
+(* payload + its CRC (the pad bytes between them may change arbitrarily as well) *)
+Theorem rr_payload_corruption_detected : forall (s t : rp_io) (max : N) (e esb pad' : list N),
+  rp_flen s = rp_len (rp_file s) -> rp_flen t = rp_len (rp_file t) ->
+  rp_r t = rp_r s -> rp_r_valid (rp_r s) = true ->
+  let pl := fm_payload_length (rp_hdr (rp_r s)) in
+  let dl := fm_disk_len pl in
+  let p := rp_offset (rp_r s) + 32 in
+  pl <> 0 ->
+  bytes_ok (rp_file s) -> bytes_ok e -> bytes_ok esb ->
+  length e = N.to_nat pl -> length esb = 4%nat -> length pad' = N.to_nat (dl - pl - 4) ->
+  rp_file t = firstn (N.to_nat p) (rp_file s)
+              ++ xor_bytes (firstn (N.to_nat pl) (skipn (N.to_nat p) (rp_file s))) e
+              ++ pad'
+              ++ xor_bytes (firstn 4 (skipn (N.to_nat (p + dl - 4)) (rp_file s))) esb
+              ++ skipn (N.to_nat (p + dl)) (rp_file s) ->
+  N.of_nat (8 * length (e ++ esb)) <= 2147483647 ->
+  le (e ++ esb) <> 0 ->
+  ((weight (le (e ++ esb)) <= 3)%nat \/
+   (exists (v : N) (k : nat), 0 < v /\ v < 2 ^ 32 /\ (k <= 8 * length (e ++ esb))%nat /\
+      le (e ++ esb) = N.shiftl v (N.of_nat k))) ->
+  snd (rp_raw_rd_payload s max) = 0 ->
+  snd (rp_raw_rd_payload t max) = JLS_ERROR_MESSAGE_INTEGRITY.
+Proof.
+  intros s t max e esb pad' Hls Hlt Hr Hv pl dl p Hpl Hbf Hbe Hbs Hle Hl4 Hlp Hft Hn Hnz Hcls Hok.
+  destruct (rr_rd_payload_closed s max Hls Hv Hpl) as [Hcs _]. fold pl dl p in Hcs.
+  assert (Hvt : rp_r_valid (rp_r t) = true) by (rewrite Hr; exact Hv).
+  assert (Hplt : fm_payload_length (rp_hdr (rp_r t)) <> 0) by (rewrite Hr; exact Hpl).
+  destruct (rr_rd_payload_closed t max Hlt Hvt Hplt) as [Hct _]. rewrite Hr in Hct. fold pl dl p in Hct.
+  destruct (max <? dl).
+  { rewrite Hok in Hcs. discriminate. }
+  cbv zeta in Hcs, Hct.
+  rewrite Hok in Hcs. rewrite Hct. clear Hct.
+  set (region := fm_sub p dl (rp_file s)) in *.
+  destruct (rp_len region <? dl) eqn:Eshort; [discriminate|]. apply N.ltb_ge in Eshort.
+  pose proof (rr_pad_ge pl Hpl) as Hge. fold dl in Hge.
+  assert (Hrl : length region = N.to_nat dl).
+  { pose proof (rr_sub_length_le p dl (rp_file s)) as Hx. fold region in Hx. unfold rp_len in Eshort. lia. }
+  assert (Hfull : p + dl <= N.of_nat (length (rp_file s))) by (apply rr_sub_full; [exact Hrl|lia]).
+  destruct (rr_region_parts (rp_file s) p pl dl Hge Hfull) as (Hpay & Hcrc4 & Hpayl & Hcrcl). fold region in Hpay, Hcrc4.
+  rewrite Hpay, Hcrc4 in Hcs.
+  destruct (crc32c (fm_sub p pl (rp_file s)) =? fm_dec (fm_sub (p + dl - 4) 4 (rp_file s))) eqn:Eok; [|discriminate].
+  apply N.eqb_eq in Eok. clear Hcs.
+  (* the corrupted region *)
+  set (B := xor_bytes (fm_sub p pl (rp_file s)) e).
+  set (D := xor_bytes (fm_sub (p + dl - 4) 4 (rp_file s)) esb).
+  assert (HlB : length B = N.to_nat pl) by (subst B; rewrite xor_bytes_length; congruence).
+  assert (HlD : length D = 4%nat) by (subst D; rewrite xor_bytes_length; congruence).
+  assert (Hregion' : fm_sub p dl (rp_file t) = B ++ pad' ++ D).
+  { rewrite Hft. fold (fm_sub p pl (rp_file s)). fold (fm_sub (p + dl - 4) 4 (rp_file s)). fold B. fold D.
+    replace dl with (N.of_nat (length B + length pad' + length D)) at 1 by lia.
+    apply rr_sub_app5. rewrite firstn_length. lia. }
+  rewrite Hregion'.
+  assert (Hrl' : rp_len (B ++ pad' ++ D) = dl) by (unfold rp_len; rewrite !app_length; lia).
+  rewrite Hrl', N.ltb_irrefl.
+  rewrite firstn_app_exact by exact HlB.
+  replace (N.to_nat (dl - 4)) with (length (B ++ pad')) by (rewrite app_length; lia).
+  rewrite app_assoc, skipn_app_exact by reflexivity. rewrite firstn_all2 by lia.
+  subst B D. rewrite N.eqb_sym.
+  rewrite (rr_crc_detect (fm_sub p pl (rp_file s)) (fm_sub (p + dl - 4) 4 (rp_file s)) e esb); try assumption; try reflexivity.
+  - now apply rr_bytes_ok_sub.
+  - now apply rr_bytes_ok_sub.
+  - symmetry. exact Eok.
+  - congruence.
+Qed.
+
+(* the pad bytes are outside every CRC, and nothing the reader returns depends on them: same return code,
+   same payload bytes in the buffer *)
+Theorem rr_pad_irrelevant : forall (s t : rp_io) (max : N) (pad' : list N),
+  rp_flen s = rp_len (rp_file s) -> rp_flen t = rp_len (rp_file t) ->
+  rp_r t = rp_r s -> rp_buf t = rp_buf s -> rp_r_valid (rp_r s) = true ->
+  let pl := fm_payload_length (rp_hdr (rp_r s)) in
+  let dl := fm_disk_len pl in
+  let p := rp_offset (rp_r s) + 32 in
+  pl <> 0 -> p + dl <= rp_len (rp_file s) ->
+  length pad' = N.to_nat (dl - pl - 4) ->
+  rp_file t = firstn (N.to_nat (p + pl)) (rp_file s) ++ pad' ++ skipn (N.to_nat (p + dl - 4)) (rp_file s) ->
+  snd (rp_raw_rd_payload t max) = snd (rp_raw_rd_payload s max) /\
+  firstn (N.to_nat pl) (rp_buf (fst (rp_raw_rd_payload t max))) = firstn (N.to_nat pl) (rp_buf (fst (rp_raw_rd_payload s max))).
+Proof.
+  intros s t max pad' Hls Hlt Hr Hb Hv pl dl p Hpl Hfull Hlp Hft.
+  destruct (rr_rd_payload_closed s max Hls Hv Hpl) as [Hcs Hbs]. fold pl dl p in Hcs, Hbs.
+  assert (Hvt : rp_r_valid (rp_r t) = true) by (rewrite Hr; exact Hv).
+  assert (Hplt : fm_payload_length (rp_hdr (rp_r t)) <> 0) by (rewrite Hr; exact Hpl).
+  destruct (rr_rd_payload_closed t max Hlt Hvt Hplt) as [Hct Hbt]. rewrite Hr in Hct, Hbt. rewrite Hb in Hbt. fold pl dl p in Hct, Hbt.
+  destruct (max <? dl).
+  { split; congruence. }
+  cbv zeta in Hcs, Hct, Hbs, Hbt.
+  rewrite Hcs, Hct, Hbs, Hbt. clear Hcs Hct Hbs Hbt.
+  pose proof (rr_pad_ge pl Hpl) as Hge. fold dl in Hge. unfold rp_len in Hfull.
+  set (region := fm_sub p dl (rp_file s)).
+  assert (Hrl : length region = N.to_nat dl) by (apply rr_sub_length; exact Hfull).
+  destruct (rr_region_parts (rp_file s) p pl dl Hge Hfull) as (Hpay & Hcrc4 & Hpayl & Hcrcl). fold region in Hpay, Hcrc4.
+  set (B := fm_sub p pl (rp_file s)) in *. set (D := fm_sub (p + dl - 4) 4 (rp_file s)) in *.
+  assert (Hregion' : fm_sub p dl (rp_file t) = B ++ pad' ++ D).
+  { rewrite Hft.
+    replace (firstn (N.to_nat (p + pl)) (rp_file s)) with (firstn (N.to_nat p) (rp_file s) ++ B).
+    2:{ subst B. unfold fm_sub. replace (N.to_nat (p + pl)) with (N.to_nat p + N.to_nat pl)%nat by lia.
+        symmetry. apply firstn_add_app. }
+    replace (skipn (N.to_nat (p + dl - 4)) (rp_file s)) with (D ++ skipn (N.to_nat (p + dl)) (rp_file s)).
+    2:{ subst D. unfold fm_sub. replace (N.to_nat (p + dl)) with (N.to_nat (p + dl - 4) + 4)%nat by lia.
+        rewrite skipn_add. apply firstn_skipn. }
+    rewrite <- !app_assoc.
+    replace dl with (N.of_nat (length B + length pad' + length D)) at 1 by lia.
+    apply rr_sub_app5. rewrite firstn_length. lia. }
+  rewrite Hregion'.
+  assert (Hrl' : rp_len (B ++ pad' ++ D) = dl) by (unfold rp_len; rewrite !app_length; lia).
+  assert (Hrl2 : rp_len region = dl) by (unfold rp_len; lia).
+  rewrite Hrl', Hrl2.
+  rewrite (firstn_app_exact _ B (pad' ++ D)) by exact Hpayl.
+  replace (N.to_nat (dl - 4)) with (length (B ++ pad')) at 1 by (rewrite app_length; lia).
+  rewrite (app_assoc B pad' D), skipn_app_exact by reflexivity. rewrite (firstn_all2 (n := 4) D) by lia.
+  rewrite Hpay, Hcrc4. split; [reflexivity|].
+  rewrite <- !app_assoc, firstn_app_exact by exact Hpayl.
+  rewrite firstn_app. replace (N.to_nat pl - length region)%nat with 0%nat by lia. cbn [firstn]. rewrite app_nil_r.
+  symmetry. exact Hpay.
+Qed.
+
+(* ================================================================ the file header *)
+(* read_verify returning 0: the 32 bytes exist, identification and version are accepted, the CRC-32C over the
+   first 28 bytes equals the stored field, the length field is not 0; nothing but these bytes decides *)
+Lemma rr_read_verify_ok : forall s s' ver, rp_flen s = rp_len (rp_file s) -> rp_read_verify s = (s', 0, ver) ->
+  let b := fm_sub (rp_fpos (rp_r s)) 32 (rp_file s) in
+  length b = 32%nat /\
+  fm_u32_at 28 b = crc32c (firstn 28 b) /\
+  firstn 16 b = JLS_HEADER_IDENTIFICATION /\
+  fm_version_major (fm_u32_at 24 b) <= fm_version_major JLS_FORMAT_VERSION_U32 /\
+  ver = fm_u32_at 24 b /\
+  fm_u64_at 16 b <> 0 /\
+  rp_file s' = rp_file s /\ rp_flt s' = rp_flt s /\ rp_fend (rp_r s') = rp_len (rp_file s).
+Proof.
+  intros s s' ver Hlen H b. unfold rp_read_verify in H.
+  rewrite (rr_bk_fread_eq s SIZEOF_file_header Hlen) in H. change SIZEOF_file_header with 32 in H. fold b in H.
+  cbv zeta in H. change OFFSETOF_file_header_length with 16 in H. change OFFSETOF_file_header_version with 24 in H.
+  destruct (fm_u64_at 16 b =? 0) eqn:El; [inversion H|]. apply N.eqb_neq in El.
+  destruct (rp_fh_ok b) eqn:Eok; [|inversion H].
+  unfold rp_fh_ok in Eok. apply andb_true_iff in Eok. destruct Eok as [Eok Ever].
+  apply andb_true_iff in Eok. destruct Eok as [Eok Eid]. apply andb_true_iff in Eok. destruct Eok as [Ecomp Ecrc].
+  apply N.leb_le in Ever. change OFFSETOF_file_header_version with 24 in Ever.
+  assert (Hl32 : length b = 32%nat).
+  { unfold fm_fh_complete in Ecomp. apply fm_has_true in Ecomp. change (N.to_nat SIZEOF_file_header) with 32%nat in Ecomp.
+    pose proof (rr_sub_length_le (rp_fpos (rp_r s)) 32 (rp_file s)) as Hx. fold b in Hx. change (N.to_nat 32) with 32%nat in Hx. lia. }
+  assert (Hshort : (rp_len b <? 24) = false) by (apply N.ltb_ge; unfold rp_len; lia).
+  rewrite Hshort in H. inversion H; subst s' ver. clear H.
+  split; [exact Hl32|]. split; [apply N.eqb_eq; exact Ecrc|].
+  split; [apply fm_list_eqb_eq; exact Eid|]. split; [exact Ever|]. split; [reflexivity|]. split; [exact El|].
+  cbn. rewrite Hlen. repeat split; reflexivity.
+Qed.
+
+(* file header corrupted by an error of the guaranteed class: read_verify does not return 0, and the reader
+   keeps fend as it was (for a freshly opened instance: 0, so that every later chunk read returns EMPTY) *)
+Theorem rr_file_header_corruption_detected : forall (s t : rp_io) (e : list N),
+  rp_flen s = rp_len (rp_file s) -> rp_flen t = rp_len (rp_file t) ->
+  rp_r t = rp_r s -> rp_fpos (rp_r s) = 0 ->
+  bytes_ok (rp_file s) -> bytes_ok e -> length e = 32%nat ->
+  rp_file t = xor_bytes (firstn 32 (rp_file s)) e ++ skipn 32 (rp_file s) ->
+  le e <> 0 ->
+  ((weight (le e) <= 3)%nat \/
+   (exists (v : N) (k : nat), 0 < v /\ v < 2 ^ 32 /\ (k <= 256)%nat /\ le e = N.shiftl v (N.of_nat k))) ->
+  snd (fst (rp_read_verify s)) = 0 ->
+  (snd (fst (rp_read_verify t)) = JLS_ERROR_TRUNCATED \/ snd (fst (rp_read_verify t)) = JLS_ERROR_UNSUPPORTED_FILE) /\
+  snd (rp_read_verify t) = 0 /\
+  rp_fend (rp_r (fst (fst (rp_read_verify t)))) = rp_fend (rp_r t).
+Proof.
+  intros s t e Hls Hlt Hr Hp0 Hbf Hbe Hle Hft Hnz Hcls Hok.
+  destruct (rp_read_verify s) as [[s' rc] ver] eqn:Es. cbn [fst snd] in Hok. subst rc.
+  destruct (rr_read_verify_ok s s' ver Hls Es) as (Hl32 & Hcrc & _). rewrite Hp0 in Hl32, Hcrc.
+  set (b := fm_sub 0 32 (rp_file s)) in *.
+  assert (Hb : firstn 32 (rp_file s) = b) by reflexivity.
+  assert (Hxl : length (xor_bytes b e) = 32%nat) by (rewrite xor_bytes_length; congruence).
+  assert (Hb' : fm_sub 0 32 (rp_file t) = xor_bytes b e).
+  { rewrite Hft, Hb. unfold fm_sub. cbn [N.to_nat skipn]. apply firstn_app_exact. exact Hxl. }
+  unfold rp_read_verify. rewrite (rr_bk_fread_eq t SIZEOF_file_header Hlt). change SIZEOF_file_header with 32.
+  rewrite Hr, Hp0, Hb'. cbv zeta.
+  assert (Hnok : rp_fh_ok (xor_bytes b e) = false).
+  { unfold rp_fh_ok.
+    assert (Hk : fm_fh_crc_ok (xor_bytes b e) = false).
+    { apply rr_fh_crc_detect; try assumption.
+      - now apply rr_bytes_ok_sub.
+      - unfold fm_fh_crc_ok. apply N.eqb_eq. exact Hcrc. }
+    rewrite Hk, andb_false_r. reflexivity. }
+  rewrite Hnok.
+  assert (Hshort : (rp_len (xor_bytes b e) <? OFFSETOF_file_header_version) = false).
+  { apply N.ltb_ge. unfold rp_len. rewrite Hxl. cbv. discriminate. }
+  rewrite Hshort. cbn [fst snd].
+  split; [destruct (fm_u64_at OFFSETOF_file_header_length (xor_bytes b e) =? 0); [left|right]; reflexivity|].
+  split; [reflexivity|]. reflexivity.
+Qed.
+
+(* ================================================================ a whole chunk read *)
+Lemma rr_sub_prefix : forall (a n : N) (f post : list N), a + n <= N.of_nat (length f) ->
+  fm_sub a n (firstn (N.to_nat (a + n)) f ++ post) = fm_sub a n f.
+Proof.
+  intros a n f post H. unfold fm_sub. rewrite skipn_app, firstn_app.
+  rewrite skipn_length, !firstn_length, Nat.min_l by lia.
+  replace (N.to_nat n - (N.to_nat (a + n) - N.to_nat a))%nat with 0%nat by lia. cbn [firstn]. rewrite app_nil_r.
+  rewrite skipn_firstn_comm. rewrite firstn_firstn. f_equal. lia.
+Qed.
+
+(* "a corrupted chunk is never silently accepted": if jls_core_rd_chunk accepts the chunk at the current
+   offset of file f, it rejects it in every file f' that differs from f only inside the chunk's header, or only
+   inside its payload + CRC (+ pad), by an error of the guaranteed class *)
+Theorem rr_chunk_corruption_not_accepted : forall (s t s' : rp_io),
+  rr_inv s -> rr_inv t -> rp_r t = rp_r s -> bytes_ok (rp_file s) ->
+  rp_rd_chunk s = (s', 0) ->
+  let off := rp_offset (rp_r s) in
+  let pl := fm_payload_length (wm_ck_hdr (rp_cur s')) in
+  let dl := fm_disk_len pl in
+  let p := off + 32 in
+  ((exists e, bytes_ok e /\ length e = 32%nat /\ le e <> 0 /\
+      ((weight (le e) <= 3)%nat \/
+       (exists (v : N) (k : nat), 0 < v /\ v < 2 ^ 32 /\ (k <= 256)%nat /\ le e = N.shiftl v (N.of_nat k))) /\
+      rp_file t = firstn (N.to_nat off) (rp_file s)
+                  ++ xor_bytes (firstn 32 (skipn (N.to_nat off) (rp_file s))) e
+                  ++ skipn (N.to_nat off + 32) (rp_file s))
+   \/
+   (exists e esb pad', pl <> 0 /\ bytes_ok e /\ bytes_ok esb /\
+      length e = N.to_nat pl /\ length esb = 4%nat /\ length pad' = N.to_nat (dl - pl - 4) /\
+      N.of_nat (8 * length (e ++ esb)) <= 2147483647 /\ le (e ++ esb) <> 0 /\
+      ((weight (le (e ++ esb)) <= 3)%nat \/
+       (exists (v : N) (k : nat), 0 < v /\ v < 2 ^ 32 /\ (k <= 8 * length (e ++ esb))%nat /\
+          le (e ++ esb) = N.shiftl v (N.of_nat k))) /\
+      rp_file t = firstn (N.to_nat p) (rp_file s)
+                  ++ xor_bytes (firstn (N.to_nat pl) (skipn (N.to_nat p) (rp_file s))) e
+                  ++ pad'
+                  ++ xor_bytes (firstn 4 (skipn (N.to_nat (p + dl - 4)) (rp_file s))) esb
+                  ++ skipn (N.to_nat (p + dl)) (rp_file s))) ->
+  snd (rp_rd_chunk t) <> 0.
+Proof.
+  intros s t s' His Hit Hr Hbf Hs off pl dl p Hcor Hacc.
+  destruct (rp_rd_chunk t) as [t' rc'] eqn:Et. cbn [snd] in Hacc. subst rc'.
+  pose proof (rr_rd_chunk_ok s s' His Hs) as Ks. pose proof (rr_rd_chunk_ok t t' Hit Et) as Kt.
+  cbv zeta in Ks, Kt. rewrite Hr in Kt. fold off in Ks, Kt. fold pl in Ks.
+  destruct Ks as (_ & _ & _ & Hats & Hpays & Hpls & Hcs).
+  destruct Kt as (_ & _ & _ & Hatt & Hpayt & Hplt & Hct).
+  destruct Hats as (Hl32 & Hks & Hhs). destruct Hatt as (Hl32t & Hkt & Hht).
+  set (hb := fm_sub off 32 (rp_file s)) in *.
+  assert (Hfull : off + 32 <= N.of_nat (length (rp_file s))) by (apply rr_sub_full; [exact Hl32|lia]).
+  destruct Hcor as [(e & Hbe & Hle & Hnz & Hcls & Hft) | (e & esb & pad' & Hpl & Hbe & Hbs & Hle & Hl4 & Hlp & Hn & Hnz & Hcls & Hft)].
+  - (* header *)
+    assert (Hhb : firstn 32 (skipn (N.to_nat off) (rp_file s)) = hb) by reflexivity.
+    assert (Hxl : length (xor_bytes hb e) = 32%nat) by (rewrite xor_bytes_length; congruence).
+    assert (Hhb' : fm_sub off 32 (rp_file t) = xor_bytes hb e).
+    { rewrite Hft, Hhb.
+      replace (fm_sub off 32) with (fm_sub off (N.of_nat (length (xor_bytes hb e)))) by (rewrite Hxl; reflexivity).
+      apply rr_sub_app3. rewrite firstn_length. lia. }
+    rewrite Hhb' in Hkt.
+    rewrite (rr_ch_crc_detect hb e Hl32 Hle (rr_bytes_ok_sub _ _ _ Hbf) Hbe Hks Hnz Hcls) in Hkt. discriminate.
+  - (* payload *)
+    destruct (Hcs Hpl) as (_ & Hfulls & Hcrcs). fold dl p in Hfulls, Hcrcs. rewrite Hpays in Hcrcs. fold p in Hcrcs.
+    pose proof (rr_pad_ge pl Hpl) as Hge. fold dl in Hge.
+    fold (fm_sub p pl (rp_file s)) in Hft. fold (fm_sub (p + dl - 4) 4 (rp_file s)) in Hft.
+    set (B := xor_bytes (fm_sub p pl (rp_file s)) e) in *.
+    set (D := xor_bytes (fm_sub (p + dl - 4) 4 (rp_file s)) esb) in *.
+    destruct (rr_region_parts (rp_file s) p pl dl Hge Hfulls) as (_ & _ & Hpayl & Hcrcl).
+    assert (HlB : length B = N.to_nat pl) by (subst B; rewrite xor_bytes_length; congruence).
+    assert (HlD : length D = 4%nat) by (subst D; rewrite xor_bytes_length; congruence).
+    (* same header bytes, hence same header *)
+    assert (Hhbt : fm_sub off 32 (rp_file t) = hb).
+    { rewrite Hft. subst p. apply rr_sub_prefix. exact Hfull. }
+    assert (Hhdr : wm_ck_hdr (rp_cur t') = wm_ck_hdr (rp_cur s')) by (rewrite Hht, Hhs, Hhbt; reflexivity).
+    rewrite Hhdr in Hpayt, Hplt, Hct. fold pl in Hpayt, Hplt, Hct.
+    destruct (Hct Hpl) as (_ & _ & Hcrct). fold dl p in Hcrct. rewrite Hpayt in Hcrct. fold p in Hcrct.
+    assert (HB : fm_sub p pl (rp_file t) = B).
+    { rewrite Hft. replace pl with (N.of_nat (length B)) at 1 by lia. apply rr_sub_app3. rewrite firstn_length. lia. }
+    assert (HD : fm_sub (p + dl - 4) 4 (rp_file t) = D).
+    { rewrite Hft. rewrite !app_assoc. rewrite <- (app_assoc _ D).
+      replace 4 with (N.of_nat (length D)) at 2 by lia. apply rr_sub_app3.
+      rewrite !app_length, firstn_length. lia. }
+    rewrite HB, HD in Hcrct.
+    pose proof (rr_crc_detect (fm_sub p pl (rp_file s)) (fm_sub (p + dl - 4) 4 (rp_file s)) e esb) as Hdet.
+    fold B D in Hdet. rewrite <- Hcrct, N.eqb_refl in Hdet.
+    assert (Hx : true = false); [|discriminate].
+    apply Hdet; try assumption.
+    + now apply rr_bytes_ok_sub.
+    + now apply rr_bytes_ok_sub.
+    + symmetry. exact Hcrcs.
+    + congruence.
+Qed.
+
+(* ================================================================ C10 (c): the raw read layer on ARBITRARY bytes and states *)
+(* every read of the model returns bytes of the file at the requested position, or nothing *)
+Lemma rr_file_read_in_bounds : forall f flen off n,
+  rp_file_read f flen off n = [] \/ rp_file_read f flen off n = fm_sub off n f.
+Proof.
+  intros f flen off n. unfold rp_file_read. destruct (flen <=? off); [now left|right].
+  unfold fm_sub. now rewrite rr_take_eq, rr_skip_eq.
+Qed.
+
+Lemma rr_bk_fread_frame : forall s n, rp_flt (fst (rp_bk_fread s n)) = rp_flt s /\ rp_file (fst (rp_bk_fread s n)) = rp_file s.
+Proof. intros. split; reflexivity. Qed.
+
+(* jls_raw_rd_header never leaves the model's domain and never touches the file, whatever the state and the bytes *)
+Lemma rr_rd_header_no_fault : forall s,
+  rp_flt (fst (rp_raw_rd_header s)) = rp_flt s /\ rp_file (fst (rp_raw_rd_header s)) = rp_file s /\
+  rp_flen (fst (rp_raw_rd_header s)) = rp_flen s.
+Proof.
+  intro s. unfold rp_raw_rd_header.
+  destruct (rp_r_valid (rp_r s)); [repeat split|].
+  destruct (rp_fend (rp_r s) <=? rp_fpos (rp_r s)); [repeat split|].
+  unfold rp_bk_fread.
+  destruct (rp_offset (rp_r s) =? rp_fpos (rp_r s)); cbv zeta; cbn [rp_io_set_r rp_r rp_file rp_flen];
+    match goal with |- context [fm_ch_complete ?b] => destruct (fm_ch_complete b); cbn [negb]; [destruct (fm_ch_crc_ok b); cbn [negb]|] end;
+    repeat split.
+Qed.
+
+Lemma rr_rd_payload_no_fault : forall s max,
+  rp_flt (fst (rp_raw_rd_payload s max)) = rp_flt s /\ rp_file (fst (rp_raw_rd_payload s max)) = rp_file s /\
+  rp_flen (fst (rp_raw_rd_payload s max)) = rp_flen s.
+Proof.
+  intros s max. unfold rp_raw_rd_payload.
+  assert (Hhd : (if rp_r_valid (rp_r s) then (s, 0) else rp_raw_rd_header s) = rp_raw_rd_header s).
+  { destruct (rp_r_valid (rp_r s)) eqn:E; [symmetry; now apply rr_rd_header_valid | reflexivity]. }
+  rewrite Hhd. destruct (rr_rd_header_no_fault s) as (H1 & H2 & H3).
+  destruct (rp_raw_rd_header s) as [s1 rc1]. cbn [fst] in H1, H2, H3.
+  destruct (negb (rc1 =? 0)); [cbn [fst]; auto|].
+  destruct (fm_payload_length (rp_hdr (rp_r s1)) =? 0); [cbn; auto|].
+  destruct (max <? fm_disk_len (fm_payload_length (rp_hdr (rp_r s1)))); [cbn [fst]; auto|].
+  unfold rp_bk_fread. cbv zeta.
+  destruct (rp_offset (rp_r s1) + SIZEOF_chunk_header =? rp_fpos (rp_r s1));
+    cbn [rp_io_set_r rp_io_set_buf rp_r rp_file rp_flen rp_buf rp_buf_len rp_r_set_fpos rp_fpos];
+    match goal with |- context [if ?c then (_, JLS_ERROR_IO) else _] => destruct c end;
+    try (match goal with |- context [if negb ?c then _ else _] => destruct c; cbn [negb] end);
+    cbn; auto.
+Qed.
+
+(* jls_core_rd_chunk: the only fault is the stated modelling limit RpF_big, raised exactly when a CRC-valid
+   header announces a payload whose on-disk size exceeds the initial 1 MiB buffer but not the file length
+   (the C takes the jls_buf_realloc path, which is not modelled) *)
+Lemma rr_rd_chunk_no_fault : forall s,
+  rp_file (fst (rp_rd_chunk s)) = rp_file s /\ rp_flen (fst (rp_rd_chunk s)) = rp_flen s /\
+  (rp_flt (fst (rp_rd_chunk s)) = rp_flt s \/
+   (rp_flt s = 0 /\ rp_flt (fst (rp_rd_chunk s)) = RpF_big /\ snd (rp_rd_chunk s) = JLS_ERROR_NOT_ENOUGH_MEMORY)).
+Proof.
+  intro s. unfold rp_rd_chunk.
+  set (cur0 := {| wm_ck_offset := rp_offset (rp_r s); wm_ck_hdr := wm_hdr_set_tag (wm_ck_hdr (rp_cur s)) JLS_TAG_INVALID |}).
+  destruct (rr_rd_header_no_fault (rp_io_set_cur s cur0)) as (H1 & H2 & H3).
+  destruct (rp_raw_rd_header (rp_io_set_cur s cur0)) as [s1 rc1]. cbn [fst rp_io_set_cur rp_flt rp_file rp_flen] in H1, H2, H3.
+  destruct (negb (rc1 =? 0)); [cbn [fst]; auto|].
+  set (s2 := rp_io_set_cur s1 {| wm_ck_offset := wm_ck_offset cur0; wm_ck_hdr := rp_hdr (rp_r s1) |}).
+  destruct (rr_rd_payload_no_fault s2 JLS_BUF_DEFAULT_SIZE) as (K1 & K2 & K3).
+  destruct (rp_raw_rd_payload s2 JLS_BUF_DEFAULT_SIZE) as [s3 rc2]. cbn [fst] in K1, K2, K3.
+  subst s2. cbn [rp_io_set_cur rp_flt rp_file rp_flen] in K1, K2, K3.
+  destruct (rc2 =? JLS_ERROR_TOO_BIG).
+  - match goal with |- context [if ?c then (s3, JLS_ERROR_IO) else _] => destruct c end.
+    + cbn [fst snd]. split; [congruence|]. split; [congruence|]. left. congruence.
+    + cbn [fst snd rp_io_fault rp_file rp_flen rp_flt]. split; [congruence|]. split; [congruence|].
+      destruct (rp_flt s3 =? 0) eqn:E.
+      * right. apply N.eqb_eq in E. split; [congruence|]. split; reflexivity.
+      * left. congruence.
+  - destruct (rc2 =? 0); cbn [fst snd rp_io_set_buf rp_file rp_flen rp_flt]; (split; [congruence|]; split; [congruence|]; left; congruence).
+Qed.
+
+(* read_verify: the only fault is RpF_short (stated modelling limit: fewer than 24 bytes could be read, the C
+   then tests a length field it never initialised) *)
+Lemma rr_read_verify_no_fault : forall s,
+  rp_file (fst (fst (rp_read_verify s))) = rp_file s /\
+  (rp_flt (fst (fst (rp_read_verify s))) = rp_flt s \/
+   (rp_flt s = 0 /\ rp_flt (fst (fst (rp_read_verify s))) = RpF_short /\
+    rp_len (rp_file_read (rp_file s) (rp_flen s) (rp_fpos (rp_r s)) 32) < 24)).
+Proof.
+  intro s. unfold rp_read_verify, rp_bk_fread. change SIZEOF_file_header with 32.
+  set (b := rp_file_read (rp_file s) (rp_flen s) (rp_fpos (rp_r s)) 32). cbv zeta.
+  change OFFSETOF_file_header_version with 24.
+  destruct (rp_len b <? 24) eqn:E; destruct (rp_fh_ok b); cbn [fst snd rp_io_fault rp_io_set_r rp_file rp_flt];
+    (split; [reflexivity|]); try (left; reflexivity);
+    (destruct (rp_flt s =? 0) eqn:E0; [right; apply N.eqb_eq in E0; apply N.ltb_lt in E; auto | left; reflexivity]).
+Qed.
+
+(* ================================================================ examples: the hypotheses are satisfiable *)
+Definition rr_ex_hdr : fm_chunk_header :=
+  {| fm_item_next := 0; fm_item_prev := 0; fm_tag := JLS_TAG_USER_DATA; fm_rsv0 := 0; fm_chunk_meta := 0x1005;
+     fm_payload_length := 5; fm_payload_prev_length := 0 |}.
+Definition rr_ex_file : list N :=
+  fm_encode_file_header {| fm_fh_length := 80; fm_fh_version := JLS_FORMAT_VERSION_U32 |}
+  ++ fm_encode_chunk rr_ex_hdr [1; 2; 3; 4; 5].
+(* the reader positioned at the chunk, nothing cached *)
+Definition rr_ex_io (f : list N) : rp_io :=
+  rp_io_set_r (rp_io0 f) {| rp_fpos := 32; rp_fend := 80; rp_offset := 32; rp_hdr := wm_hdr0; rp_last_pl := 0 |}.
+(* the same with the chunk header cached (as after jls_raw_rd_header) *)
+Definition rr_ex_io_hdr (f : list N) : rp_io :=
+  rp_io_set_r (rp_io0 f) {| rp_fpos := 64; rp_fend := 80; rp_offset := 32; rp_hdr := rr_ex_hdr; rp_last_pl := 0 |}.
+Definition rr_ex_e32 : list N := [0; 0; 0; 0; 0; 0; 0; 0; 0; 0; 0; 0; 0; 0; 0; 0; 0; 0; 0; 0; 64; 0; 0; 0; 0; 0; 0; 0; 0; 0; 0; 0].
+
+Example rr_ex_file_length : length rr_ex_file = 80%nat /\ bytes_ok rr_ex_file.
+Proof. split; [vm_compute; reflexivity | apply bytes_ok_dec; vm_compute; reflexivity]. Qed.
+
+Example rr_ex_chunk_accepted :
+  rr_inv (rr_ex_io rr_ex_file) /\
+  snd (rp_rd_chunk (rr_ex_io rr_ex_file)) = 0 /\
+  rp_payload (fst (rp_rd_chunk (rr_ex_io rr_ex_file))) = [1; 2; 3; 4; 5] /\
+  wm_ck_hdr (rp_cur (fst (rp_rd_chunk (rr_ex_io rr_ex_file)))) = rr_ex_hdr.
+Proof.
+  split; [split; [reflexivity | cbn; discriminate]|].
+  vm_compute. repeat split.
+Qed.
+
+(* one flipped bit in the payload_length field of the chunk header *)
+Example rr_ex_header_corruption :
+  let s := rr_ex_io rr_ex_file in
+  let f' := firstn 32 rr_ex_file ++ xor_bytes (firstn 32 (skipn 32 rr_ex_file)) rr_ex_e32 ++ skipn 64 rr_ex_file in
+  let t := rr_ex_io f' in
+  rr_inv s /\ rr_inv t /\ rp_r t = rp_r s /\ rp_r_valid (rp_r s) = false /\ bytes_ok rr_ex_e32 /\ length rr_ex_e32 = 32%nat /\
+  le rr_ex_e32 <> 0 /\ (weight (le rr_ex_e32) <= 3)%nat /\
+  snd (rp_raw_rd_header s) = 0 /\
+  snd (rp_raw_rd_header t) = JLS_ERROR_MESSAGE_INTEGRITY /\ snd (rp_rd_chunk t) = JLS_ERROR_MESSAGE_INTEGRITY.
+Proof.
+  cbv zeta.
+  split; [split; [reflexivity | cbn; discriminate]|].
+  split; [split; [vm_compute; reflexivity | cbn; discriminate]|].
+  split; [reflexivity|]. split; [reflexivity|].
+  split; [apply bytes_ok_dec; vm_compute; reflexivity|].
+  split; [reflexivity|]. split; [vm_compute; discriminate|]. split; [vm_compute; lia|].
+  vm_compute. repeat split.
+Qed.
+
+(* a 32-bit burst straddling the last payload byte and nothing else / two flipped bits in payload and stored CRC,
+   with changed pad bytes *)
+Example rr_ex_payload_corruption :
+  let s := rr_ex_io_hdr rr_ex_file in
+  let e := [0; 0; 0; 0; 128] in let esb := [0; 0; 1; 0] in let pad' := [9; 9; 9; 9; 9; 9; 9] in
+  let f' := firstn 64 rr_ex_file ++ xor_bytes (firstn 5 (skipn 64 rr_ex_file)) e ++ pad'
+            ++ xor_bytes (firstn 4 (skipn 76 rr_ex_file)) esb ++ skipn 80 rr_ex_file in
+  let t := rr_ex_io_hdr f' in
+  rp_flen s = rp_len (rp_file s) /\ rp_flen t = rp_len (rp_file t) /\ rp_r t = rp_r s /\ rp_r_valid (rp_r s) = true /\
+  fm_payload_length (rp_hdr (rp_r s)) = 5 /\ fm_disk_len 5 = 16 /\ rp_offset (rp_r s) + 32 = 64 /\
+  bytes_ok e /\ bytes_ok esb /\ le (e ++ esb) <> 0 /\ (weight (le (e ++ esb)) <= 3)%nat /\
+  snd (rp_raw_rd_payload s JLS_BUF_DEFAULT_SIZE) = 0 /\
+  snd (rp_raw_rd_payload t JLS_BUF_DEFAULT_SIZE) = JLS_ERROR_MESSAGE_INTEGRITY.
+Proof.
+  cbv zeta.
+  split; [reflexivity|]. split; [vm_compute; reflexivity|]. split; [reflexivity|]. split; [reflexivity|].
+  split; [reflexivity|]. split; [reflexivity|]. split; [reflexivity|].
+  split; [apply bytes_ok_dec; vm_compute; reflexivity|]. split; [apply bytes_ok_dec; vm_compute; reflexivity|].
+  split; [vm_compute; discriminate|]. split; [vm_compute; lia|].
+  vm_compute. repeat split.
+Qed.
+
+(* only the pad bytes differ: accepted, same payload *)
+Example rr_ex_pad_change :
+  let s := rr_ex_io_hdr rr_ex_file in
+  let f' := firstn 69 rr_ex_file ++ [9; 9; 9; 9; 9; 9; 9] ++ skipn 76 rr_ex_file in
+  let t := rr_ex_io_hdr f' in
+  snd (rp_raw_rd_payload t JLS_BUF_DEFAULT_SIZE) = 0 /\
+  firstn 5 (rp_buf (fst (rp_raw_rd_payload t JLS_BUF_DEFAULT_SIZE))) = [1; 2; 3; 4; 5].
+Proof. vm_compute. repeat split. Qed.
+
+(* file header: open accepts the file; one flipped bit in the version field is rejected *)
+Example rr_ex_file_header :
+  let s := rp_io0 rr_ex_file in
+  let f' := xor_bytes (firstn 32 rr_ex_file) rr_ex_e32 ++ skipn 32 rr_ex_file in
+  let t := rp_io0 f' in
+  rp_flen s = rp_len (rp_file s) /\ rp_flen t = rp_len (rp_file t) /\ rp_r t = rp_r s /\ rp_fpos (rp_r s) = 0 /\
+  snd (fst (rp_read_verify s)) = 0 /\ snd (rp_raw_open s false) = 0 /\
+  snd (fst (rp_read_verify t)) = JLS_ERROR_UNSUPPORTED_FILE /\ snd (rp_raw_open t false) = JLS_ERROR_UNSUPPORTED_FILE.
+Proof.
+  cbv zeta. split; [reflexivity|]. split; [vm_compute; reflexivity|]. split; [reflexivity|]. split; [reflexivity|].
+  vm_compute. repeat split.
+Qed.
+
+(* ================================================================ the invariant is established and kept *)
+Lemma rr_inv_chunk_seek : forall s o, rr_inv s -> rr_inv (fst (rp_chunk_seek s o)).
+Proof.
+  intros s o [Hl _]. unfold rp_chunk_seek, rp_bk_fseek.
+  destruct (o =? 0); [split; [exact Hl | intro H; discriminate H]|].
+  cbn [rp_io_set_r rp_r]. destruct (rp_two63 <=? o); (split; [exact Hl | intro H; discriminate H]).
+Qed.
+
+Lemma rr_inv_seek_end : forall s, rr_inv s -> rr_inv (rp_seek_end s).
+Proof. intros s [Hl _]. split; [exact Hl | intro H; discriminate H]. Qed.
+
+Lemma rr_inv_raw_open : forall f append, rr_inv (fst (rp_raw_open (rp_io0 f) append)).
+Proof.
+  intros f append. unfold rp_raw_open.
+  destruct (rp_read_verify (rp_io_set_r (rp_io0 f) rp_raw0)) as [[s1 rc] ver] eqn:E.
+  assert (H : rr_inv s1).
+  { unfold rp_read_verify, rp_bk_fread in E. cbv zeta in E.
+    match type of E with context [rp_fh_ok ?b] => destruct (rp_fh_ok b) end;
+      match type of E with context [if ?c then rp_io_fault _ _ else _] => destruct c end;
+      inversion E; subst s1; (split; [reflexivity | intro H; discriminate H]). }
+  match goal with |- context [if ?c then _ else _] => destruct c end; exact H.
+Qed.
+
+Lemma rr_inv_rd_header : forall s, rr_inv s -> rr_inv (fst (rp_raw_rd_header s)).
+Proof. intros s H. destruct (rp_raw_rd_header s) as [s' rc] eqn:E. exact (proj1 (rr_rd_header_spec s s' rc H E)). Qed.
+Lemma rr_inv_rd_payload : forall s max, rr_inv s -> rr_inv (fst (rp_raw_rd_payload s max)).
+Proof. intros s max H. destruct (rp_raw_rd_payload s max) as [s' rc] eqn:E. exact (proj1 (rr_rd_payload_spec s max s' rc H E)). Qed.
+Lemma rr_inv_rd_chunk : forall s, rr_inv s -> rr_inv (fst (rp_rd_chunk s)).
+Proof. intros s H. destruct (rp_rd_chunk s) as [s' rc] eqn:E. exact (proj1 (rr_rd_chunk_any s s' rc H E)). Qed.
+
+(* ================================================================ final forms for Properties_C04_struct.v *)
+Lemma rr_hdr_at_decode : forall f off h, rr_hdr_at f off h ->
+  length (fm_sub off 32 f) = 32%nat /\ fm_decode_chunk_header (fm_sub off 32 f) = Some h.
+Proof.
+  intros f off h (Hl & Hk & Hh). split; [exact Hl|]. unfold fm_decode_chunk_header.
+  assert (Hc : fm_ch_complete (fm_sub off 32 f) = true) by (unfold fm_ch_complete; apply fm_has_true; rewrite Hl; reflexivity).
+  rewrite Hc, Hk, Hh. reflexivity.
+Qed.
+
+Lemma rr_C04_rd_chunk : forall s s',
+  rp_flen s = rp_len (rp_file s) ->
+  (rp_r_valid (rp_r s) = true ->
+     length (fm_sub (rp_offset (rp_r s)) 32 (rp_file s)) = 32%nat /\
+     fm_ch_crc_ok (fm_sub (rp_offset (rp_r s)) 32 (rp_file s)) = true /\
+     rp_hdr (rp_r s) = fm_ch_fields (fm_sub (rp_offset (rp_r s)) 32 (rp_file s))) ->
+  rp_rd_chunk s = (s', 0) ->
+  let f := rp_file s in
+  let off := rp_offset (rp_r s) in
+  let h := wm_ck_hdr (rp_cur s') in
+  let pl := fm_payload_length h in
+  rp_file s' = f /\ rp_flt s' = rp_flt s /\ wm_ck_offset (rp_cur s') = off /\
+  length (fm_sub off 32 f) = 32%nat /\
+  fm_decode_chunk_header (fm_sub off 32 f) = Some h /\
+  fm_u32_at 28 (fm_sub off 32 f) = crc32c (firstn 28 (fm_sub off 32 f)) /\
+  rp_payload s' = fm_sub (off + 32) pl f /\
+  length (rp_payload s') = N.to_nat pl /\
+  (pl <> 0 ->
+     fm_disk_len pl <= JLS_BUF_DEFAULT_SIZE /\
+     off + 32 + fm_disk_len pl <= N.of_nat (length f) /\
+     crc32c (rp_payload s') = fm_dec (fm_sub (off + 32 + fm_disk_len pl - 4) 4 f)) /\
+  (bytes_ok f ->
+     fm_u32_at 28 (fm_sub off 32 f) = crc_spec (firstn 28 (fm_sub off 32 f)) /\
+     (pl <> 0 -> crc_spec (rp_payload s') = fm_dec (fm_sub (off + 32 + fm_disk_len pl - 4) 4 f))).
+Proof.
+  intros s s' Hl Hv H f off h pl.
+  assert (Hinv : rr_inv s) by (split; [exact Hl | exact Hv]).
+  destruct (rr_rd_chunk_ok s s' Hinv H) as (H1 & H2 & H3 & H4 & H5 & H6 & H7).
+  fold f off in H1, H3, H4, H5, H7. fold h in H4. fold pl in H5, H6, H7.
+  destruct (rr_hdr_at_decode _ _ _ H4) as [Hl32 Hdec]. destruct H4 as (_ & Hk & _).
+  assert (Hcrc : fm_u32_at 28 (fm_sub off 32 f) = crc32c (firstn 28 (fm_sub off 32 f))) by (apply N.eqb_eq; exact Hk).
+  do 3 (split; [assumption|]). split; [exact Hl32|]. split; [exact Hdec|]. split; [exact Hcrc|].
+  split; [exact H5|]. split; [exact H6|]. split; [exact H7|].
+  intro Hb. split.
+  - rewrite Hcrc. apply crc32c_eq. apply bytes_ok_firstn. now apply rr_bytes_ok_sub.
+  - intro Hpl. destruct (H7 Hpl) as (_ & _ & Hc).
+    change (crc32c (rp_payload s') = fm_dec (fm_sub (off + 32 + fm_disk_len pl - 4) 4 f)) in Hc. rewrite <- Hc. symmetry. apply crc32c_eq. rewrite H5. now apply rr_bytes_ok_sub.
+Qed.
+
+Lemma rr_C04_read_verify : forall s s' ver,
+  rp_flen s = rp_len (rp_file s) -> rp_read_verify s = (s', 0, ver) ->
+  let b := fm_sub (rp_fpos (rp_r s)) 32 (rp_file s) in
+  length b = 32%nat /\
+  fm_u32_at 28 b = crc32c (firstn 28 b) /\
+  (bytes_ok (rp_file s) -> fm_u32_at 28 b = crc_spec (firstn 28 b)) /\
+  firstn 16 b = JLS_HEADER_IDENTIFICATION /\
+  fm_version_major (fm_u32_at 24 b) <= fm_version_major JLS_FORMAT_VERSION_U32 /\
+  ver = fm_u32_at 24 b /\
+  fm_u64_at 16 b <> 0 /\
+  rp_file s' = rp_file s /\ rp_flt s' = rp_flt s /\ rp_fend (rp_r s') = rp_len (rp_file s).
+Proof.
+  intros s s' ver Hl H b. destruct (rr_read_verify_ok s s' ver Hl H) as (H1 & H2 & H3). fold b in H1, H2, H3.
+  split; [exact H1|]. split; [exact H2|]. split; [|exact H3].
+  intro Hb. rewrite H2. apply crc32c_eq. apply bytes_ok_firstn. now apply rr_bytes_ok_sub.
+Qed.
+
+(* expanded-invariant version of rr_chunk_corruption_not_accepted *)
+Lemma rr_inv_expand : forall s,
+  rp_flen s = rp_len (rp_file s) ->
+  (rp_r_valid (rp_r s) = true ->
+     length (fm_sub (rp_offset (rp_r s)) 32 (rp_file s)) = 32%nat /\
+     fm_ch_crc_ok (fm_sub (rp_offset (rp_r s)) 32 (rp_file s)) = true /\
+     rp_hdr (rp_r s) = fm_ch_fields (fm_sub (rp_offset (rp_r s)) 32 (rp_file s))) ->
+  rr_inv s.
+Proof. intros s H1 H2. split; assumption. Qed.
+
+Lemma rr_C04_chunk_corruption : forall (s t s' : rp_io),
+  rp_flen s = rp_len (rp_file s) ->
+  (rp_r_valid (rp_r s) = true ->
+     length (fm_sub (rp_offset (rp_r s)) 32 (rp_file s)) = 32%nat /\
+     fm_ch_crc_ok (fm_sub (rp_offset (rp_r s)) 32 (rp_file s)) = true /\
+     rp_hdr (rp_r s) = fm_ch_fields (fm_sub (rp_offset (rp_r s)) 32 (rp_file s))) ->
+  rp_flen t = rp_len (rp_file t) ->
+  (rp_r_valid (rp_r t) = true ->
+     length (fm_sub (rp_offset (rp_r t)) 32 (rp_file t)) = 32%nat /\
+     fm_ch_crc_ok (fm_sub (rp_offset (rp_r t)) 32 (rp_file t)) = true /\
+     rp_hdr (rp_r t) = fm_ch_fields (fm_sub (rp_offset (rp_r t)) 32 (rp_file t))) ->
+  rp_r t = rp_r s -> bytes_ok (rp_file s) ->
+  rp_rd_chunk s = (s', 0) ->
+  let off := rp_offset (rp_r s) in
+  let pl := fm_payload_length (wm_ck_hdr (rp_cur s')) in
+  let dl := fm_disk_len pl in
+  let p := off + 32 in
+  ((exists e, bytes_ok e /\ length e = 32%nat /\ le e <> 0 /\
+      ((weight (le e) <= 3)%nat \/
+       (exists (v : N) (k : nat), 0 < v /\ v < 2 ^ 32 /\ (k <= 256)%nat /\ le e = N.shiftl v (N.of_nat k))) /\
+      rp_file t = firstn (N.to_nat off) (rp_file s)
+                  ++ xor_bytes (firstn 32 (skipn (N.to_nat off) (rp_file s))) e
+                  ++ skipn (N.to_nat off + 32) (rp_file s))
+   \/
+   (exists e esb pad', pl <> 0 /\ bytes_ok e /\ bytes_ok esb /\
+      length e = N.to_nat pl /\ length esb = 4%nat /\ length pad' = N.to_nat (dl - pl - 4) /\
+      N.of_nat (8 * length (e ++ esb)) <= 2147483647 /\ le (e ++ esb) <> 0 /\
+      ((weight (le (e ++ esb)) <= 3)%nat \/
+       (exists (v : N) (k : nat), 0 < v /\ v < 2 ^ 32 /\ (k <= 8 * length (e ++ esb))%nat /\
+          le (e ++ esb) = N.shiftl v (N.of_nat k))) /\
+      rp_file t = firstn (N.to_nat p) (rp_file s)
+                  ++ xor_bytes (firstn (N.to_nat pl) (skipn (N.to_nat p) (rp_file s))) e
+                  ++ pad'
+                  ++ xor_bytes (firstn 4 (skipn (N.to_nat (p + dl - 4)) (rp_file s))) esb
+                  ++ skipn (N.to_nat (p + dl)) (rp_file s))) ->
+  snd (rp_rd_chunk t) <> 0.
+Proof.
+  intros s t s' H1 H2 H3 H4. apply rr_chunk_corruption_not_accepted; apply rr_inv_expand; assumption.
+Qed.
+
+Lemma rr_C04_invariant :
+  let P := fun s : rp_io =>
+    rp_flen s = rp_len (rp_file s) /\
+    (rp_r_valid (rp_r s) = true ->
+       length (fm_sub (rp_offset (rp_r s)) 32 (rp_file s)) = 32%nat /\
+       fm_ch_crc_ok (fm_sub (rp_offset (rp_r s)) 32 (rp_file s)) = true /\
+       rp_hdr (rp_r s) = fm_ch_fields (fm_sub (rp_offset (rp_r s)) 32 (rp_file s))) in
+  (forall f append, P (fst (rp_raw_open (rp_io0 f) append))) /\
+  (forall s, P s -> P (fst (rp_raw_rd_header s))) /\
+  (forall s max, P s -> P (fst (rp_raw_rd_payload s max))) /\
+  (forall s, P s -> P (fst (rp_rd_chunk s))) /\
+  (forall s o, P s -> P (fst (rp_chunk_seek s o))) /\
+  (forall s, P s -> P (rp_seek_end s)).
+Proof.
+  cbv zeta. split; [exact rr_inv_raw_open|]. split; [exact rr_inv_rd_header|]. split; [exact rr_inv_rd_payload|].
+  split; [exact rr_inv_rd_chunk|]. split; [exact rr_inv_chunk_seek | exact rr_inv_seek_end].
 Qed.
